@@ -29,6 +29,9 @@ type C09Op struct {
 	Mode   string           `json:"mode"`         // op | global | none
 	Alts   [][]int          `json:"alternatives"` // effective alternatives (scheme indices); empty list = no requirement
 	Scopes map[int][]string `json:"scopes,omitempty"`
+	// Unsatisfiable: the operation declares alternatives, but each names a scheme the generator does not implement
+	// (dropped under ignore_not_implemented): no request can satisfy the requirement
+	Unsatisfiable bool `json:"unsatisfiable,omitempty"`
 }
 
 type C09Spec struct {
@@ -348,7 +351,7 @@ func c09Spec(r *ev.Run, spec *C09Spec) error {
 					anyFailed = true
 				}
 			}
-			satisfied := len(op.Alts) == 0
+			satisfied := len(op.Alts) == 0 && !op.Unsatisfiable
 			for _, a := range op.Alts {
 				ok := true
 				for _, s := range a {
@@ -384,6 +387,8 @@ func c09Spec(r *ev.Run, spec *C09Spec) error {
 				viol("handler-called-twice", "handler invoked more than once")
 			case invoked && disp.invoked[0] != name:
 				viol("wrong-operation", "handler "+disp.invoked[0]+" ran instead of "+name)
+			case invoked && op.Unsatisfiable:
+				viol("unimplemented-scheme-fail-open", "handler ran although every alternative of the operation names a scheme the generator does not implement")
 			case invoked && !satisfied:
 				viol("handler-ran-unsatisfied", "handler ran although no alternative has all its schemes accepted")
 			case !invoked && w.Code != 401:
@@ -412,7 +417,7 @@ func c09Spec(r *ev.Run, spec *C09Spec) error {
 		}
 
 		// ---- part B: generated client -> generated server
-		if !spec.Client {
+		if !spec.Client || op.Unsatisfiable {
 			continue
 		}
 		nAuth := 0
